@@ -46,7 +46,7 @@ func init() {
 }
 
 func runC18(r *Run, rng *rand.Rand, thorough bool) {
-	r.Rule = "exact ops: ckd.DeriveChildKeyFromHierarchy vs the Lean BIP32 model (own HMAC-SHA512, SHA-256, RIPEMD-160, base58check, curve arithmetic) on random parents/chain codes and paths of length 0..5 with indices {0,1,2^31-1,2^31,random}, depth 254/255; independent oracle: btcutil hdkeychain public derivation; derive-then-sign runs with the offset; non-trivial = distinct op line; direct assertions: child = parent + offset·G, refusals, signature verifies under the child key and not under the parent, stored shares unchanged"
+	r.Rule = "exact ops: ckd.DeriveChildKeyFromHierarchy vs the Lean BIP32 model (own HMAC-SHA512, SHA-256, RIPEMD-160, base58check, curve arithmetic) on random parents/chain codes and paths of length 0..5 with indices {0,1,2^31-1,2^31,random}, the ordinary/hardened boundary (2^31-1, 2^31, 2^31+1, 2^32-1) at every position of several path shapes, depth 254/255; independent oracle: btcutil hdkeychain public derivation; derive-then-sign runs with the offset; non-trivial = distinct op line; direct assertions: child = parent + offset·G, refusals, signature verifies under the child key and not under the parent, stored shares unchanged"
 	S := tss.S256()
 	q := S.Params().N
 	idxs := []uint32{0, 1, 1<<31 - 1, 1 << 31, 7, uint32(rng.Int31())}
@@ -59,6 +59,30 @@ func runC18(r *Run, rng *rand.Rand, thorough bool) {
 	for u := int64(1); len(shortX) < 3 && u < 5000; u++ {
 		if pt := crypto.ScalarBaseMult(S, bi(u+int64(rng.Intn(3)))); pt.X().BitLen() <= 248 {
 			shortX = append(shortX, pt)
+		}
+	}
+	// directed: the boundary between ordinary and hardened indices at every position of short and long paths
+	{
+		parent := crypto.ScalarBaseMult(S, new(big.Int).Add(below(rng, new(big.Int).Sub(q, bi(2))), bi(1)))
+		cc := randBytes(rng, 32)
+		for _, b := range []uint64{1<<31 - 1, 1 << 31, 1<<31 + 1, 1<<31 + 44, 1<<32 - 1} {
+			for _, tmpl := range [][]int64{{-1}, {0, -1}, {-1, 0}, {44, 60, -1, 0, 5}, {1, 2, 3, 4, -1}} {
+				path := make([]string, len(tmpl))
+				for j, v := range tmpl {
+					if v < 0 {
+						path[j] = fmt.Sprint(b)
+					} else {
+						path[j] = fmt.Sprint(v)
+					}
+				}
+				ps := strings.Join(path, ",")
+				g, _, _ := r.Do("ckd.DeriveChildKeyFromHierarchy/index-boundary", true, "ckd_derive", ePoint(parent), "0", eBytes(cc), ps)
+				if b >= 1<<31 {
+					r.Assert(g == "err", "ckd/hardened", "hardened-index-refused", func() string { return ps + " " + g[:min(len(g), 60)] })
+				} else {
+					r.Assert(strings.HasPrefix(g, "ok "), "ckd/last-ordinary-index", "index-2^31-1-derives", func() string { return ps + " " + g[:min(len(g), 60)] })
+				}
+			}
 		}
 	}
 	for i := 0; i < n+len(shortX); i++ {
